@@ -347,4 +347,110 @@ Section Render.
       + exists ((w0', (kt' ++ w1' ++ [x3d] ++ w2' ++ o') ++ w3') :: rows). cbn [combine]. split; [constructor; [exact Hpr|exact HF]|].
         split; [cbn [length]; rewrite Hlen; reflexivity|]. cbn [flat_map fst snd]. rewrite <- !app_assoc. do 8 f_equal. exact Erows.
   Qed.
+  (* rows printed behind the first pair *)
+  Lemma enc_kvs_rows f len : forall (prs : list (list key * (key * item))) rows l kvl i,
+    Forall2 (fun xr pa => prend (fst xr) (fst pa) (snd pa) (fst (snd xr)) (snd (snd xr))) (combine prs rows) l ->
+    length rows = length prs ->
+    forallb (fun pv => Nat.eqb (length (fst pv)) 1 && simple_inline (snd pv)) l = true ->
+    prs = map plain_pair kvl ->
+    (forall kv, In kv kvl -> value_size (tvalue s (snd kv)) < f) ->
+    enc_kvs f len (S i) (map (fun kv => ([tkey s (fst kv)], tvalue s (snd kv))) kvl)
+    = flat_map (fun r => [x2c] ++ fst r ++ snd r) rows.
+  Proof.
+    induction prs as [|x prs IH]; intros rows l kvl i HF Hlen Hs Ekv Hsz.
+    - destruct kvl; [|discriminate]. destruct rows; [reflexivity|discriminate].
+    - destruct rows as [|r rows]; [discriminate|]. destruct kvl as [|[k v] kvl]; [discriminate|].
+      cbn [map plain_pair] in Ekv. injection Ekv as -> ->. cbn [combine] in HF.
+      inversion HF as [|xr pa ? l' Hp HF']; subst. cbn [forallb] in Hs. apply andb_true_iff in Hs as [Hs1 Hs2].
+      destruct (Hp Hs1) as (_ & v0 & Ev & _ & Henc). cbn [fst snd] in Ev, Henc. injection Ev as <-.
+      cbn [map enc_kvs fst snd]. cbn [Nat.eqb].
+      rewrite (Henc f _ DEFAULT_INLINE_KEY_DECOR (Hsz (k, v) (or_introl eq_refl))).
+      rewrite (IH rows l' kvl (S i) HF' ltac:(cbn [length] in Hlen; lia) Hs2 eq_refl).
+      + cbn [flat_map]. rewrite <- !app_assoc. reflexivity.
+      + intros kv Hin. apply Hsz. right. exact Hin.
+  Qed.
+
+  Lemma prend_plain (prs : list (list key * (key * item))) rows l :
+    Forall2 (fun xr pa => prend (fst xr) (fst pa) (snd pa) (fst (snd xr)) (snd (snd xr))) (combine prs rows) l ->
+    length rows = length prs ->
+    forallb (fun pv => Nat.eqb (length (fst pv)) 1 && simple_inline (snd pv)) l = true ->
+    exists kvl, prs = map plain_pair kvl /\ Forall (fun kv : key * value => undot (snd kv) = true) kvl.
+  Proof.
+    revert rows l. induction prs as [|x prs IH]; intros rows l HF Hlen Hs.
+    - exists []. split; [reflexivity|constructor].
+    - destruct rows as [|r rows]; [discriminate|]. cbn [combine] in HF. inversion HF as [|xr pa ? l' Hp HF']; subst.
+      cbn [forallb] in Hs. apply andb_true_iff in Hs as [Hs1 Hs2].
+      destruct (Hp Hs1) as (Epath & v0 & Ev & Hu & _). cbn [fst snd] in *.
+      destruct (IH rows l' HF' ltac:(cbn [length] in Hlen; lia) Hs2) as (kvl & -> & Hk).
+      destruct x as [path [k it]]. cbn [fst snd] in *. subst path it. exists ((k, v0) :: kvl). split; [reflexivity|constructor; assumption].
+  Qed.
+
+  Lemma ws_stops_nil w j j' : ws_tok w -> splits j w j' -> stops wschar (rest j) -> w = [].
+  Proof.
+    intros Hw [R _] Hst. destruct w as [|b w]; [reflexivity|]. rewrite R in Hst. cbn [app stops] in Hst.
+    unfold ws_tok, all in Hw. cbn [forallb] in Hw. apply andb_true_iff in Hw as [Hb _]. congruence.
+  Qed.
+
+  Lemma inline_table_render i v i' : isrc s i -> inline_table vr i = Ok v i' ->
+    exists t kvs o, vtext t (AInl kvs) o /\ splits i t i' /\ isrc s i' /\ vrend s v (AInl kvs) o.
+  Proof.
+    rewrite inline_table_eq. intros Hi H. apply bind_inv in H as (x & j1 & H1 & H). apply byte_inv in H1 as [_ S1].
+    destruct (isrc_splits s i [x7b] j1 Hi S1) as [Hj1 _].
+    apply bind_inv in H as (tv & j2 & H2 & H). apply cut_err_inv in H2. unfold inline_body in H2.
+    apply try_map_inv in H2 as ([pairs pre] & H2 & Htm).
+    apply bind_inv in H as (y & j3 & H3 & H). apply context_inv, cut_err_inv, byte_inv in H3 as [_ S3].
+    apply ret_inv in H as [-> ->].
+    unfold inline_kvs in H2. apply bind_inv in H2 as (kv & k1 & E1 & H2).
+    apply bind_inv in H2 as (sp & k2 & E2 & H2). pose proof E2 as E2'. apply span_inv in E2' as (u2 & _ & Esp).
+    apply span_ws_inv in E2 as (w & Hw & Sw & _). apply ret_inv in H2 as [E ->]. injection E as -> ->.
+    apply (separated0_inv _ _ _ _ _ (mono_shrinking _ (inline_keyval_mono vr Hmono)) (byte_shrinking _)) in E1
+      as [(-> & -> & _) | (pr & i1 & prs & -> & E & R)].
+    - (* { blanks } *)
+      destruct (isrc_splits s j1 w j2 Hj1 Sw) as [Hj2 _]. destruct (isrc_splits s j2 [x7d] j3 Hj2 S3) as [Hj3 _].
+      exists ([x7b] ++ w ++ [x7d]), [], ([x7b] ++ w ++ [x7d]). split; [apply (vt_inline_empty w Hw)|].
+      split; [exact (splits_trans _ _ _ _ _ S1 (splits_trans _ _ _ _ _ Sw S3))|]. split; [exact Hj3|].
+      cbv in Htm. injection Htm as <-. split; [reflexivity|]. intros _ fuel dflt Hf. destruct fuel as [|f]; [lia|].
+      unfold core. cbn [value_decorate]. rewrite tvalue_inline, enc_inline. cbv zeta. cbn [map inline_values flat_map length enc_kvs].
+      unfold decor_prefix, decor_suffix. cbn [tdecor decor_new d_prefix d_suffix toraw traw]. rewrite !raw_encode_empty.
+      subst sp. rewrite (span_prints s j1 w j2 [] Hj1 Sw), (ncr_ws w Hw). cbn [app]. rewrite ?app_nil_r. reflexivity.
+    - (* { pairs } *)
+      destruct (inline_keyval_render j1 pr i1 Hj1 E) as (w0 & kt & p & w1 & w2 & t & a & o & w3 & Hw0 & Hkt & Hw1 & Hw2 & Ht & Hw3 & Sp & Hi1 & Hpr & Hst1).
+      destruct (inline_seps_render i1 prs k1 Hi1 R Hst1 kt p w1 w2 t a o w3 Hkt Hw1 Hw2 Ht Hw3)
+        as (u & l & ou & wl & x' & Sx & Hk1 & Hstk & Ex & Hwl & Hkv & rows & HF & Hlen & Erows).
+      pose proof (ws_stops_nil w k1 j2 Hw Sw Hstk) as Ew. subst w.
+      assert (Ej : j2 = k1) by (destruct Sw as [_ ->]; apply adv_nil). subst j2.
+      destruct (isrc_splits s k1 [x7d] j3 Hk1 S3) as [Hj3 _].
+      exists ([x7b] ++ w0 ++ (kt ++ w1 ++ [x3d] ++ w2 ++ t ++ u) ++ wl ++ [x7d]), ((p, a) :: l),
+             ([x7b] ++ w0 ++ (kt ++ w1 ++ [x3d] ++ w2 ++ o ++ ou) ++ wl ++ [x7d]).
+      split; [apply vt_inline; assumption|]. split; [|split; [exact Hj3|]].
+      + pose proof (splits_trans _ _ _ _ _ S1 (splits_trans _ _ _ _ _ (splits_trans _ _ _ _ _ Sp Sx) S3)) as S.
+        assert (E2 : forall z, w3 ++ x' ++ z = u ++ wl ++ z) by (intro z; rewrite !app_assoc, Ex; reflexivity).
+        rewrite <- !app_assoc in S. rewrite E2 in S. rewrite <- !app_assoc. exact S.
+      + (* the table built from the pairs *)
+        unfold table_from_pairs in Htm. destruct (table_from_pairs_loop_d [] (pr :: prs)) as [m| |] eqn:El; try discriminate.
+        injection Htm as <-. split; [reflexivity|]. cbn [simple_inline forallb]. intros Hs fuel dflt Hf.
+        assert (HF1 : Forall2 (fun xr pa => prend (fst xr) (fst pa) (snd pa) (fst (snd xr)) (snd (snd xr)))
+                        (combine (pr :: prs) ((w0, (kt ++ w1 ++ [x3d] ++ w2 ++ o) ++ w3) :: rows)) ((p, a) :: l))
+          by (cbn [combine]; constructor; [exact Hpr|exact HF]).
+        assert (Hlen1 : length ((w0, (kt ++ w1 ++ [x3d] ++ w2 ++ o) ++ w3) :: rows) = length (pr :: prs)) by (cbn [length]; rewrite Hlen; reflexivity).
+        destruct (prend_plain _ _ _ HF1 Hlen1 Hs) as (kvl & Ekv & Hu).
+        rewrite Ekv in El. apply loop_d_plain in El. cbn [app] in El. subst m. rewrite Ekv, spans_pass_plain.
+        destruct fuel as [|f]; [lia|]. unfold core in *. cbn [value_decorate] in *. rewrite tvalue_inline in *. rewrite enc_inline. cbv zeta.
+        rewrite (inline_values_plain s _ kvl Hu). rewrite map_length.
+        unfold decor_prefix, decor_suffix. cbn [tdecor decor_new d_prefix d_suffix toraw traw]. rewrite !raw_encode_empty.
+        subst sp. rewrite (span_prints s k1 [] k1 [] Hk1 Sw). cbn [ncr filter app]. rewrite ?app_nil_r.
+        assert (Hsz : forall kv, In kv kvl -> value_size (tvalue s (snd kv)) < f).
+        { intros [k0 v0] Hin. cbn [value_size] in Hf. cbn [snd].
+          pose proof (kv_size_in (map (tkv s) (map (fun kv => (fst kv, IValue (snd kv))) kvl)) (tkey s k0) (IValue (tvalue s v0))) as Hle.
+          assert (Hin' : In (tkey s k0, IValue (tvalue s v0)) (map (tkv s) (map (fun kv => (fst kv, IValue (snd kv))) kvl))).
+          { rewrite map_map. apply in_map_iff. exists (k0, v0). split; [reflexivity|exact Hin]. }
+          specialize (Hle Hin'). cbn [item_size] in Hle. lia. }
+        destruct kvl as [|[k0 v0] kvl]; [discriminate|]. cbn [map plain_pair] in Ekv. injection Ekv as -> Ekv.
+        cbn [map enc_kvs fst snd]. cbn [Nat.eqb].
+        apply andb_true_iff in Hs as [Hs1 Hs2].
+        destruct (Hpr Hs1) as (_ & v1 & Ev & _ & Henc). cbn [fst snd] in Ev, Henc. injection Ev as <-.
+        rewrite (Henc f _ DEFAULT_INLINE_KEY_DECOR (Hsz (k0, v0) (or_introl eq_refl))).
+        rewrite (enc_kvs_rows f _ prs rows l kvl 0 HF Hlen Hs2 Ekv (fun kv Hin => Hsz kv (or_intror Hin))).
+        rewrite <- !app_assoc. do 7 f_equal. rewrite !app_assoc. rewrite <- (app_assoc w3). rewrite Erows. rewrite <- !app_assoc. reflexivity.
+  Qed.
 End Render.
